@@ -667,7 +667,7 @@ func (p *Prog) nilNilResultDeref(fn *ssa.Function, call *ssa.Call) *PanicSite {
 			}
 		}
 	}
-	if callee == nil || !p.InModule(callee) || !p.mayReturnNilNil(callee, 0) {
+	if callee == nil || callee.Blocks == nil || !p.mayReturnNilNil(callee, 0) {
 		return nil
 	}
 	var first ssa.Value
